@@ -20,3 +20,7 @@ def run(ctx, rep):
     more3.rule_cursor_step(mod, rep)
     from ..rules import more4
     more4.rule_row_block(mod, rep)
+    from ..rules import more5
+    more5.rule_gstrs_perm(mod, rep)
+    from ..rules import misc
+    misc.rule_refact_refresh(mod, rep)   # refact = YES is one of the option combinations of the expert driver
